@@ -268,7 +268,7 @@ def assumed_run(tier='quick', prop=None):
     fns, table, comb = collect()
     lx = A.lexers_check(fns, table)
     r = A.assumed_check(fns, prop, decided=lx['decided'])
-    return _pack('gvc.assumed', [r], t0, samples=[dict(obligation='pp productions whose accepted language is an assumed contract are the pinned text', productions=r['names'])])
+    return _pack('gvc.assumed', [lx, r], t0, samples=[dict(obligation='pp productions whose accepted language is an assumed contract are the pinned text', productions=r['names'])])
 
 
 def lexers_run(tier='quick'):
